@@ -28,7 +28,13 @@ def step (s : St) (op impl : String) : St × StepOut :=
     let win : Int := 2 ^ (8 * len)
     let cand := candidateBits (8 * len) (largest + 1) trunc
     let tag := if r = cand + win then "pndec:up" else if r = cand - win then "pndec:down" else "pndec:same"
-    (s, { model := s!"{r}", tags := [tag] })
+    -- RFC 9000 A.3: for a well-formed truncated number the result is a packet number (0 ≤ · < 2^62) congruent to it
+    let ir := intOf impl
+    let wellFormed := decide (1 ≤ len) && decide (len ≤ 4) && decide (-1 ≤ largest) && decide (largest + 1 < 2 ^ 62) && decide (0 ≤ trunc) && decide (trunc < win)
+    let fails :=
+      (if wellFormed && (ir < 0 || ir ≥ 2 ^ 62) then [("pn_decoded_in_range", "-", s!"len={len} largest={largest} truncated={trunc} decoded={ir}")] else []) ++
+      (if wellFormed && ir % win ≠ trunc then [("pn_decoded_congruent", "-", s!"len={len} truncated={trunc} decoded={ir}")] else [])
+    (s, { model := s!"{r}", tags := [tag], fails := fails })
   | ["pnlen", pn, la] =>
     let r := pnLenForHeader (intOf pn) (intOf la)
     (s, { model := s!"{r}", tags := [s!"pnlen:{r}"] })
